@@ -193,6 +193,12 @@ func randFilter(r *rand.Rand, recs []rec15, deleted []uuid.UUID, groups []uuid.U
 			for i := 0; i < n; i++ {
 				f.ByStatus = append(f.ByStatus, allStatuses[perm[i]])
 			}
+			// a caller that merges status lists asks for a status twice: same meaning
+			if r.Intn(4) == 0 {
+				dup := f.ByStatus[r.Intn(len(f.ByStatus))]
+				at := r.Intn(len(f.ByStatus) + 1)
+				f.ByStatus = append(f.ByStatus[:at], append([]workflow.Status{dup}, f.ByStatus[at:]...)...)
+			}
 		}
 	}
 	return f
